@@ -94,17 +94,17 @@ def quick_models(dev_names=()):
 def thorough_models(dev_names=()):
     runs = quick_models(dev_names)
     runs += [
-        session_model('MC_t1', '{0,1,3}', A2, MRU, INI, BOTHQ, BOTH, '{}', timeout=3000,
+        session_model('MC_t1', '{0,1,3}', A2, MRU, INI, BOTHQ, BOTH, '{}', timeout=9000,
                       note='A queues 2 bundles of 0/1/3 octets; terminate anywhere on either side'),
-        session_model('MC_t2', '{0,3}', B11, MRU, INI, BOTHQ, '{"A"}', '{}', timeout=3000,
+        session_model('MC_t2', '{0,3}', B11, MRU, INI, BOTHQ, '{"A"}', '{}', timeout=9000,
                       note='one bundle of 0/3 octets each way, partial socket acceptance, A terminates anywhere'),
         session_model('MC_live', '{0,3}', A1, MRU, INI, BOTHQ, BOTH, '{}', fair=True, dev='{"busy_wait_abstracted"}',
-                      props=('TermLive', 'Terminates'), timeout=3000,
+                      props=('TermLive', 'Terminates'), timeout=9000,
                       note='liveness under weak fairness (busy wait of the queue source abstracted): termination '
                            'always completes, the event loops always run out of work'),
         session_model('MC_live_dev', '{0,3}', A1, MRU, INI, BOTHQ, BOTH, '{}', fair=True, expect='violation',
                       dev='{"busy_wait_abstracted", "zero_length_stuck"}', props=('TermLive', 'Terminates'),
-                      enforced='{}', timeout=3000,
+                      enforced='{}', timeout=9000,
                       note='a zero-length transfer that never leaves the queue must violate the liveness properties'),
     ]
     return runs
